@@ -48,3 +48,41 @@ Definition C13_first_string_stmt : Prop :=
     Forall (fun X => mentioned g X /\ X <> Eps) str ->
     (forall a, In (Tm a) (first g' str) <-> exists w, DerivesL g str (a :: w)) /\
     (In Eps (first g' str) <-> DerivesL g str []).
+
+(* ===== the generated parser (statements; proofs in Proofs_LRSound.v) ============================ *)
+From Theo Require Import SpecLR.
+
+(* the start symbol is a non-terminal of g, the end marker a terminal *)
+Definition start_ok (g : grammar) (S eof : sym) : Prop :=
+  (exists s, S = Nt s /\ s < total_nt g) /\ (exists e, eof = Tm e) /\
+  (forall X alts, In (X, alts) (right_sides g) -> exists n, X = Nt n /\ n < total_nt g).
+
+(* soundness: without conflicts, an accepted input has a derivation tree of the start symbol whose yield
+   is the consumed part of the input — all of it up to the end marker in full mode, some prefix of it in
+   prefix mode — and the returned value is the fold of that tree *)
+Definition C13_sound_stmt : Prop :=
+  forall (T V : Type) (translator : T -> N) (creator : T -> V) (semantic : sym -> N -> list V -> V)
+         max_states g prefix S eof g' tab states fuel input v,
+    wf_grammar g -> start_ok g S eof ->
+    generate_tables max_states g prefix S eof = Ok (g', tab, [], states) ->
+    parse translator creator semantic tab fuel input = Ok (Some v) ->
+    exists (tr : tree) rest,
+      valid translator g tr /\ root translator tr = S /\
+      input = yield tr ++ rest /\ v = value creator semantic tr /\
+      (prefix = false -> exists tok rest', rest = tok :: rest' /\ Tm (translator tok) = eof).
+
+(* the driver never performs an undefined stack or table access, and stops, on any input that contains an end marker *)
+Definition C13_driver_safe_stmt : Prop :=
+  forall (T V : Type) (translator : T -> N) (creator : T -> V) (semantic : sym -> N -> list V -> V)
+         max_states g prefix S eof g' tab states input,
+    wf_grammar g -> start_ok g S eof ->
+    generate_tables max_states g prefix S eof = Ok (g', tab, [], states) ->
+    (exists pre tok post, input = pre ++ tok :: post /\ Tm (translator tok) = eof) ->
+    forall fuel, parse translator creator semantic tab fuel input = Fuel \/
+                 exists r, parse translator creator semantic tab fuel input = Ok r.
+
+(* table generation itself is total *)
+Definition C13_generate_total_stmt : Prop :=
+  forall max_states g prefix S eof, wf_grammar g -> start_ok g S eof ->
+    generate_tables max_states g prefix S eof = Fuel \/
+    exists r, generate_tables max_states g prefix S eof = Ok r.
